@@ -30,7 +30,7 @@ func init() {
 			"with bytes allocated during the rejected call measured from runtime.MemStats against a control (the same number of incompressible bytes through the same wrapping): bound = control + 8 x limit + 4 MiB; metamorphic: genuine, non-conforming and corrupted messages presented raw and DEFLATE-compressed at a drawn level must give the same acceptance, data and error class; distinct = shape hash (family, limit, delta, entry point, padding family, level, outcome)",
 		Directed:   c12Directed,
 		Run:        c12Run,
-		MustHit:    []string{"family=boundary", "family=bomb", "family=metamorphic", "family=bomb-in-encrypted", "delta=-1", "delta=0", "delta=+1", "limit=unset", "limit=1", "limit=4096", "pad=after-root", "pad=inside-root", "alloc_measured"},
+		MustHit:    []string{"family=boundary", "family=bomb", "family=metamorphic", "family=bomb-in-encrypted", "delta=-1", "delta=0", "delta=+1", "limit=unset", "limit=1", "limit=4096", "pad=after-root", "pad=inside-root", "alloc_measured", "router_peeked_first"},
 		RandomRuns: map[string]int{"quick": 400, "thorough": 6000},
 		Assumptions: []string{"allocation bound is checked for rejected over-limit inputs only (an accepted document is legitimately parsed into a tree several times its size); stack and allocator slack are not measured",
 			"each worker process runs one goroutine, so TotalAlloc deltas belong to the call"},
@@ -48,6 +48,9 @@ func c12Directed(tier string) [][]uint64 {
 						continue
 					}
 					out = append(out, []uint64{0, li, d, ep, pad, 0})
+					if pad == 1 && d == 2 {
+						out = append(out, []uint64{0, li, d, ep, pad, 1}) // the router peeked first
+					}
 				}
 			}
 		}
@@ -207,6 +210,17 @@ func c12Run(r *core.Run) {
 			r.Probe("delta=0")
 		}
 		base := "<a></a>"
+		if eff >= 1024 && eff < 1<<16 {
+			// a small but decodable message of the kind the entry point expects
+			kindName := "Response"
+			switch ep {
+			case "ValidateEncodedLogoutRequestPOST":
+				kindName = "LogoutRequest"
+			case "ValidateEncodedLogoutResponsePOST", "DecodeUnverifiedLogoutResponse":
+				kindName = "LogoutResponse"
+			}
+			base = `<samlp:` + kindName + ` xmlns:samlp="` + world.NSProtocol + `" xmlns:saml="` + world.NSAssertion + `" ID="_small" Version="2.0" IssueInstant="` + now.UTC().Format(time.RFC3339) + `"><saml:Issuer>` + s.Fed.IdPIssuer + `</saml:Issuer><samlp:Status><samlp:StatusCode Value="` + world.StatusOK + `"/></samlp:Status></samlp:` + kindName + `>`
+		}
 		if eff >= 1<<16 {
 			base = mkBase()
 			if base == "" {
@@ -235,6 +249,12 @@ func c12Run(r *core.Run) {
 		rawDoc = func() string { return head + strings.Repeat(" ", int(padN)) + tail }
 		r.Fault("boundary_padding")
 		enc := world.B64(comp)
+		if sel%4 == 1 {
+			// a router peeks at the message with the unverified decoders before the SP sees it
+			world.Guard(func() error { saml2.DecodeUnverifiedBaseResponse(enc); return nil })
+			world.Guard(func() error { saml2.DecodeUnverifiedLogoutResponse(enc); return nil })
+			r.Fault("router_peeked_first")
+		}
 		var oc world.Outcome
 		var dc string
 		alloc := allocDuring(func() { oc, dc = c12Call(s.Node, ep, enc) })
